@@ -7,6 +7,7 @@ sys.path.insert(0, "/verif")
 from vf import verus as V, props as P, common as C
 
 src = sys.argv[1]
+camp = "harmless2" if "harmless2" in src else "harmless"
 with_kani = "--kani" in sys.argv
 units = sorted(u for u in os.listdir("/verif/units") if os.path.exists("/verif/units/%s/READY" % u))
 KANI_BY_FILE = {"src/common/lct.rs": ["C06"], "src/common/alc.rs": ["C06"], "src/common/alccodec/": ["C06"], "src/common/oti.rs": ["C01"],
@@ -63,7 +64,7 @@ for n in sorted(os.listdir(src)):
                 if pr.returncode == 1:
                     rec["false_alarms"].append({"check": pid, "lines": lines})
                 shutil.rmtree(outdir, ignore_errors=True)
-        dest = "/verif/seeded/harmless/%s" % n
+        dest = "/verif/seeded/%s/%s" % (camp, n)
         os.makedirs(dest, exist_ok=True)
         shutil.copy(pd, dest)
         if os.path.exists(os.path.join(src, n, "README.md")):
@@ -72,6 +73,6 @@ for n in sorted(os.listdir(src)):
     alarms += len(rec["false_alarms"])
     results["edits"][n] = rec
     print(n, "applies" if rec["applies"] else "DOES NOT APPLY", "| false alarms:", rec["false_alarms"] or "none", "| undecided:", [x["unit"] for x in rec["undecided"]] or "none", "| kani:", {k: v["exit"] for k, v in rec["kani"].items()}, "|", title[:70], flush=True)
-os.makedirs("/verif/seeded/harmless", exist_ok=True)
-json.dump(results, open("/verif/seeded/harmless/" + outname, "w"), indent=1)
+os.makedirs("/verif/seeded/" + camp, exist_ok=True)
+json.dump(results, open("/verif/seeded/" + camp + "/" + outname, "w"), indent=1)
 print("total false alarms:", alarms)
